@@ -59,6 +59,19 @@ CHECKS = {
         "Trusted: label tracer and permutation-matrix builder in mc/c10.py, numpy. The class of the "
         "returned diagram is deliberately not asserted.",
         "DESIGN.md 4/C10"),
+    "C02": (
+        "exhaustive enumeration of all values / ordered pairs / composable triples / parallel pairs of a "
+        "per-class pool, each law evaluated with == on the values the real API returns",
+        "In all eight diagram classes (cat, monoidal, rigid, tensor, circuit, zx, biclosed, cartesian) "
+        "every pool value is checked for unit laws, dagger involution/types and every slice point and "
+        "slice pair; every ordered pair for (f>>g)[::-1] == g[::-1]>>f[::-1] and f@g == f@Id >> Id@g; "
+        "every composable triple and all triples of a sub-pool for associativity of >> and @; every "
+        "parallel pair against every value for bilinearity of >>, @, [::-1] over + and the empty-sum "
+        "unit. Bare boxes are compared through the wrapping one-box diagram, as the statement says.",
+        "Pools are bounded (size in evidence). (f@g)[::-1] == f[::-1]@g[::-1] and associativity of + "
+        "are not claimed by C02 and not checked. Categories without dagger (biclosed rules, cartesian "
+        "boxes) skip dagger laws, counted as dagger_unsupported.",
+        "DESIGN.md 4/C02"),
 }
 
 PENDING_REASON = ("check not built yet in this session (planned: bounded exhaustive exploration as in "
